@@ -55,3 +55,10 @@ package bmmatrix
 //@   ensures diag: forall i int, j int :: 0 <= i && i < n && 0 <= j && j < n ==> result.Data[i][j] == (i == j ? Complex32{1.0, 0.0} : Complex32{0.0, 0.0})
 //@   loop 1: invariant idx: 0 <= i && i <= n
 //@   loop 1: invariant done: forall p int, q int :: 0 <= p && p < n && 0 <= q && q < n ==> m.Data[p][q] == ((p == q && p < i) ? Complex32{1.0, 0.0} : Complex32{0.0, 0.0})
+
+// the product allocates its result; neither the matrix nor the vector is written
+//@ func MatrixVectorProductComplex(a *BmMatrixSquareComplex, b []Complex32) ([]Complex32, error)
+//@   requires a != nil
+//@   ensures ok: result1 == nil ==> fresh(result) && len(result) == a.N
+//@   assigns nothing
+//@   trusted
